@@ -135,6 +135,14 @@ CHECKS = {
         "fuzzing / property-based testing: grammar + mutation generated sessions with a witness-session oracle and panic detection (+ libFuzzer session target in thorough)",
         "DESIGN.md §5 C17",
     ),
+    "C20": (
+        "client",
+        "exploration",
+        "Four generated searches through the real worterbuch-client: (1) send buffer on tokio's paused clock through local_client_wrapper around a recording API - 20 k (thorough 400 k) schedules of set_later/publish_later around the delay: everything sent was handed in with that kind, per (kind,key) the sent values are a subsequence of the handed-in ones ending with the latest; (2) 1.5 k single-task sequences of the typed API against the reference model, every one of the four unsubscribe calls judged on the raw server stream after a barrier and on the server's own API; (3) 40 (thorough 1000) pairing runs with 8-32 tasks on cloned handles on a 4-thread runtime, values encode their key and per-task private keys give exact expectations.",
+        "Thread schedules of the pairing part are not seedable (only the generated calls are); close() of a local client wrapper deadlocks by construction and is not called. The unsubscribe oracle does not rely on timing.",
+        "property-based testing: proptest schedules on a virtual clock (subsequence / latest-value oracle), model-based API sequences, concurrent pairing stress with key-encoding values",
+        "DESIGN.md §5 C20",
+    ),
 }
 
 NOT_YET = "check not built yet in this round of the build phase (work in progress, see DESIGN.md §5)"
